@@ -211,7 +211,7 @@ Section SpecProofs.
   Lemma registration_spec a reg sigs :
     RUN (ReqRegistration a reg) = Ok sigs ->
     exists r, reg = Some r /\
-      sigs = [sign (a_key a) (csr (htr_registration H r)
+      sigs = [sign (a_key a) (csr (htr_registration H (wire_registration r))
                                   (compute_domain H DOMAIN_APPLICATION_BUILDER (ch_genesis_version c) 0))]
       /\ a_fail a = false.
   Proof.
@@ -221,6 +221,30 @@ Section SpecProofs.
     cbn [spec_service s_builder] in Hdt. injection Hdt as <-.
     cbn [p_genesis spec_provider] in Hd. rewrite N.eqb_refl in Hd. injection Hd as <-.
     exists r. repeat split; auto.
+  Qed.
+
+  (* The registration message of a Go registration carries the whole seconds of its time.Time:
+     the sub-second part [ns] never changes the message (Unix() rounds down; it does not round to
+     the nearest second). *)
+  Lemma wire_registration_whole_seconds fee gas pk (s ns : Z) :
+    (0 <= ns < 1000000000)%Z ->
+    wire_registration (GoRegistration fee gas (s * 1000000000 + ns) pk) = Registration fee gas (to_uint64 s) pk.
+  Proof.
+    intro Hns. unfold wire_registration, unix_seconds. cbn [gr_fee_recipient gr_gas_limit gr_time_ns gr_pubkey].
+    rewrite Z.div_add_l by lia. rewrite (Z.div_small ns) by lia. rewrite Z.add_0_r. reflexivity.
+  Qed.
+
+  Lemma to_uint64_small (s : Z) : (0 <= s < 18446744073709551616)%Z -> to_uint64 s = Z.to_N s.
+  Proof. intro Hs. unfold to_uint64. rewrite Z.mod_small by lia. reflexivity. Qed.
+
+  Lemma registration_seconds_spec a fee gas pk (s ns : Z) sigs :
+    (0 <= ns < 1000000000)%Z -> (0 <= s < 18446744073709551616)%Z ->
+    RUN (ReqRegistration a (Some (GoRegistration fee gas (s * 1000000000 + ns) pk))) = Ok sigs ->
+    sigs = [sign (a_key a) (csr (htr_registration H (Registration fee gas (Z.to_N s) pk))
+                                (compute_domain H DOMAIN_APPLICATION_BUILDER (ch_genesis_version c) 0))].
+  Proof.
+    intros Hns Hs Hrun. apply registration_spec in Hrun as (r & Hr & -> & _). injection Hr as <-.
+    rewrite wire_registration_whole_seconds by exact Hns. rewrite to_uint64_small by exact Hs. reflexivity.
   Qed.
 End SpecProofs.
 
